@@ -198,6 +198,24 @@ type Parser struct {
 	usedFuncs           map[string][]string // Stores which function (key) calls which functions (values).
 	importing           []string            // Stores the files which are currently being imported (to detect import cycles).
 	importedFiles       map[string]bool     // Stores the prefixes of the files which have already been added to the program (shared between all parsers of a program).
+	nestingDepth        int                 // Stores how deep the expression or block which is currently parsed is nested.
+}
+
+// maxNestingDepth limits how deep expressions and blocks can be nested, because every level needs stack
+// space and running out of it cannot be recovered from.
+const maxNestingDepth = 10000
+
+func (p *Parser) enterNesting() error {
+	p.nestingDepth++
+
+	if p.nestingDepth > maxNestingDepth {
+		return p.atError(fmt.Sprintf("nesting is deeper than %d levels", maxNestingDepth), p.peek())
+	}
+	return nil
+}
+
+func (p *Parser) leaveNesting() {
+	p.nestingDepth--
 }
 
 func New() Parser {
@@ -871,6 +889,11 @@ func (p *Parser) evaluateBlockBegin() error {
 }
 
 func (p *Parser) evaluateBlockContent(terminationTokenTypes []lexer.TokenType, callback blockCallback, ctx context, scope scope) ([]Statement, error) {
+	defer p.leaveNesting()
+
+	if err := p.enterNesting(); err != nil {
+		return nil, err
+	}
 	var err error
 
 	statements := []Statement{}
@@ -2227,6 +2250,11 @@ func (p *Parser) evaluateSingleExpression(ctx context) (Expression, error) {
 // Learnt a lot about priority handling from this video https://www.youtube.com/watch?v=aAvL2BTHf60.
 // Precedence is the same as in Go (https://go.dev/ref/spec#Operator_precedence).
 func (p *Parser) evaluateUnaryOperation(ctx context) (Expression, error) {
+	defer p.leaveNesting()
+
+	if err := p.enterNesting(); err != nil {
+		return nil, err
+	}
 	nextToken := p.peek()
 	negate := false
 
